@@ -1990,11 +1990,14 @@ impl ContextualHuffmanDecoder {
         let first_tree = &self.encoder.trees[0];
         if let Ok(first_symbol) = self.decode_next_symbol(encoded_data, &mut byte_idx, &mut bit_pos, first_tree) {
             result.push(first_symbol);
+        } else {
+            // No context to continue from (undecodable first symbol, e.g. a corrupt model)
+            return Ok(result);
         }
 
         // Decode remaining symbols with context
         while result.len() < output_length && byte_idx < encoded_data.len() {
-            // SAFETY: First symbol pushed at line 1862 before loop, so result is always non-empty
+            // SAFETY: First symbol pushed before the loop (early return otherwise), so result is non-empty
             let context = *result.last().unwrap() as u32;
             let tree_idx = self.encoder.context_map.get(&context).copied().unwrap_or(0);
             let tree = &self.encoder.trees[tree_idx];
@@ -2027,6 +2030,11 @@ impl ContextualHuffmanDecoder {
             } else {
                 break;
             }
+        }
+
+        // Without two leading symbols there is no 2-symbol context to continue from
+        if result.len() < 2 {
+            return Ok(result);
         }
 
         // Decode remaining symbols with 2-symbol context
